@@ -344,34 +344,33 @@ pub fn run(ctx: &Ctx) -> ! {
     let checked = AtomicU64::new(0);
     let nontrivial: Mutex<BTreeSet<u64>> = Mutex::new(BTreeSet::new());
     let samples = Mutex::new(Samples::new(3));
-    let stats = corpus::drive(
-        ctx,
-        &uni,
-        &cfg,
-        &|cq| {
-            checked.fetch_add(1, Ordering::Relaxed);
-            for (key, what) in check_ir(&uni.world.schema, &cq.iq) {
-                ctx.fail(&key, &what, json!({"schema_id": "S-verif", "query_text": cq.text, "observed": what, "ir": format!("{:?}", cq.iq.ir_query)}));
-            }
-            let f = qast::features(&cq.q);
-            if f.fold > 0 || f.filters_tag > 0 || f.count_tag > 0 {
-                nontrivial.lock().unwrap().insert(crate::common::fnv(format!("{:?}", cq.iq.ir_query).as_bytes()));
-            }
-            if f.fold > 0 && (f.filters_tag > 0 || f.count_tag > 0) {
-                samples.lock().unwrap().offer(|| json!({"query_text": cq.text, "vertices": cq.iq.vids.len(), "edges": cq.iq.eids.len()}));
-            }
-        },
-        &|_| {},
-        &|_, _| {},
-    );
+    let per_query = |cq: &corpus::CompiledQuery| {
+        checked.fetch_add(1, Ordering::Relaxed);
+        for (key, what) in check_ir(&uni.world.schema, &cq.iq) {
+            ctx.fail(&key, &what, json!({"schema_id": "S-verif", "query_text": cq.text, "observed": what, "ir": format!("{:?}", cq.iq.ir_query)}));
+        }
+        let f = qast::features(&cq.q);
+        if f.fold > 0 || f.filters_tag > 0 || f.count_tag > 0 {
+            nontrivial.lock().unwrap().insert(crate::common::fnv(format!("{:?}", cq.iq.ir_query).as_bytes()));
+        }
+        if f.fold > 0 && (f.filters_tag > 0 || f.count_tag > 0) {
+            samples.lock().unwrap().offer(|| json!({"query_text": cq.text, "vertices": cq.iq.vids.len(), "edges": cq.iq.eids.len()}));
+        }
+    };
+    let stats = corpus::drive(ctx, &uni, &cfg, &per_query, &|_| {}, &|_, _| {});
+    // second space: two-edge structures + up to 2 (quick) / 3 (thorough) tag deviations (a tag used in
+    // two sibling folds, in a nested fold and then a sibling of its parent, count tags, ...)
+    let cfg2 = corpus::structures_cfg(&uni, ctx.tier.pick(2, 3), vec!["Pt", "Fct"], ctx.tier.pick(2, 3));
+    let stats2 = corpus::drive(ctx, &uni, &cfg2, &per_query, &|_| {}, &|_, _| {});
     let _ = Arc::new(0);
     let mut c = cov();
     c.insert("evaluations".into(), json!(checked.load(Ordering::Relaxed)));
     c.insert("distinct_nontrivial".into(), json!(nontrivial.lock().unwrap().len()));
-    c.insert("rule".into(), json!("every query of the enumerated space accepted by the frontend is checked against invariants I1-I9 (DESIGN.md C11); distinct = distinct IRs containing a fold or a tag"));
+    c.insert("rule".into(), json!("every query of two enumerated spaces (k deviations from the skeletons; two-edge structures + tag deviations) accepted by the frontend is checked against invariants I1-I9 (DESIGN.md C11); distinct = distinct IRs containing a fold or a tag"));
     c.insert("corpus".into(), stats.to_json());
+    c.insert("corpus_tag_structures".into(), stats2.to_json());
     c.insert("samples".into(), json!(samples.lock().unwrap().items));
-    c.insert("exhaustive".into(), json!(!stats.capped));
+    c.insert("exhaustive".into(), json!(!stats.capped && !stats2.capped));
     ctx.finish("exploration", c, vec!["invariants are those listed in DESIGN.md C11, written from ir/indexed.rs's comment and execution.rs's asserts".into()])
 }
 
